@@ -144,9 +144,12 @@ func (g *gworld) opUndelegate(d, v int, amt sdkmath.Int) {
 }
 
 // proposal message kinds: 0 = erc20 MsgUpdateParams (succeeds), 1 = erc20 MsgToggleTokenConversion of an unknown token
-// (handler fails → proposal FAILED, must not halt), 2 = two messages of kind 0
+// (handler fails → proposal FAILED, must not halt), 2 = two messages of kind 0, 3 = NO message at all (a text proposal: title and
+// summary only — the per-message-type parameter lookups of the tally run with an empty message list)
 func (g *gworld) propMsgs(kindN int) []sdk.Msg {
 	switch kindN {
+	case 3:
+		return []sdk.Msg{}
 	case 1:
 		return []sdk.Msg{&erc20types.MsgToggleTokenConversion{Authority: g.gov, Token: "nosuchtoken"}}
 	case 2:
@@ -158,13 +161,18 @@ func (g *gworld) propMsgs(kindN int) []sdk.Msg {
 
 func (g *gworld) opSubmit(who int, expedited bool, initial int64, kindN int) uint64 {
 	g.s.MintToken(g.voters[who], gcoins(initial)...)
-	msg, err := v1.NewMsgSubmitProposal(g.propMsgs(kindN), gcoins(initial), g.voters[who].String(), "", "t", "s", expedited)
+	meta := ""
+	if len(g.propMsgs(kindN)) == 0 {
+		meta = "text proposal" // a proposal without messages must carry metadata
+	}
+	msg, err := v1.NewMsgSubmitProposal(g.propMsgs(kindN), gcoins(initial), g.voters[who].String(), meta, "t", "s", expedited)
 	if err != nil {
 		g.t.Fatal(err)
 	}
 	id, _ := g.s.App.GovKeeper.ProposalID.Peek(g.ctx())
 	res := g.deliver(msg)
 	g.out.Count("gsubmit:" + short(res))
+	g.out.Count(fmt.Sprintf("gsubmit:messages=%d:%s", len(g.propMsgs(kindN)), short(res)))
 	g.out.Emit(fmt.Sprintf("gsubmit %d %v %d %d", who, expedited, initial, kindN), "-")
 	if res != "ok" {
 		return 0
@@ -294,7 +302,13 @@ func (g *gworld) due(at time.Time) []dueT {
 		}
 		params, _ := k.Params.Get(ctx)
 		bonded, _ := sk.TotalBondedTokens(ctx)
-		quorum, _ := sdkmath.LegacyNewDecFromStr(k.GetCustomMsgQuorum(ctx, params.Quorum, p))
+		// the keeper's own per-message-type lookup, under recover: a lookup that cannot cope with this proposal (e.g. one without
+		// messages) must show up as the tally's failure below, not as a crash of the harness
+		quorumS := params.Quorum
+		if r := hx.Try(func() error { quorumS = k.GetCustomMsgQuorum(ctx, params.Quorum, p); return nil }); r != "ok" {
+			g.out.Count("gtally:custom-quorum-lookup-panics")
+		}
+		quorum, _ := sdkmath.LegacyNewDecFromStr(quorumS)
 		veto, _ := sdkmath.LegacyNewDecFromStr(params.VetoThreshold)
 		thrS := params.Threshold
 		if p.Expedited {
@@ -547,6 +561,7 @@ func (g *gworld) scenario(n int) {
 		g.setCustoms(nil, 0)
 		g.voting(false, 0)
 		g.voting(true, 1)
+		g.voting(false, 3) // a proposal without any message
 		run(5)
 	case 2: // only voters without any delegation vote (total voting power 0), quorum 0 through the custom parameters
 		g.opParams(m)
@@ -607,8 +622,10 @@ func (g *gworld) scenario(n int) {
 		g.opParams(m)
 		g.setCustoms(nil, 0)
 		pid := g.voting(false, 1)
+		pid3 := g.voting(false, 3) // a text proposal (no message) that passes: nothing to execute
 		for i := 0; i < (nv+1)/2; i++ {
 			g.opVote(pid, i, "y")
+			g.opVote(pid3, i, "y")
 		}
 		run(3)
 	case 9: // abstain + exactly-at-threshold veto / yes
@@ -653,9 +670,9 @@ func (g *gworld) sequence(length int) {
 			exp := rng.Intn(3) == 0
 			var id uint64
 			if rng.Intn(4) == 0 {
-				id = g.opSubmit(nv+rng.Intn(4), exp, int64(1+rng.Intn(999)), rng.Intn(3))
+				id = g.opSubmit(nv+rng.Intn(4), exp, int64(1+rng.Intn(999)), rng.Intn(4))
 			} else {
-				id = g.voting(exp, rng.Intn(3))
+				id = g.voting(exp, rng.Intn(4))
 			}
 			if id != 0 {
 				open = append(open, id)
